@@ -1333,6 +1333,10 @@ func plus(a, b string) string {
 	if b == "0" {
 		return a
 	}
+	// off + (j - off) = j  (absolute positions introduced by quantifier anchoring)
+	if strings.HasPrefix(b, "(- ") && strings.HasSuffix(b, " "+a+")") {
+		return b[3 : len(b)-len(a)-2]
+	}
 	return "(+ " + a + " " + b + ")"
 }
 func minus(a, b string) string {
